@@ -178,49 +178,59 @@ Record cst := mk_cst {
 
 Definition BUFSZ : nat := 4096.
 
+(* outcome of one buffered primitive: value and state, or the I/O error with the
+   state reached when it occurred, or out of fuel *)
+Inductive cres (A : Type) :=
+| COk (a : A) (c : cst)
+| CErr (e : ioerr) (c : cst)
+| CFuel.
+Arguments COk {A}. Arguments CErr {A}. Arguments CFuel {A}.
+
 (* func (d *decoder) fill() error; called with an empty buffer *)
-Definition fill (c : cst) : cst + (ioerr + unit (* out of fuel *)) :=
+Definition fill (c : cst) : cres unit :=
   match c_fuel c with
-  | O => inr (inr tt)
+  | O => CFuel
   | S f =>
-      if Nat.eqb (c_n c) (c_limit c) then inr (inl IOBeyond) else
+      if Nat.eqb (c_n c) (c_limit c) then CErr IOBeyond c else
       let '(bs, e, rd') := rd_read (c_rd c) (Nat.min BUFSZ (c_limit c - c_n c)) in
       match bs with
-      | _ :: _ => inl (mk_cst rd' bs (c_n c) (c_limit c) (crc_write (c_crc c) bs) f)
+      | _ :: _ => COk tt (mk_cst rd' bs (c_n c) (c_limit c) (crc_write (c_crc c) bs) f)
       | [] =>
           match e with
-          | Some t => inr (inl (noEOF t))
-          | None => inl (mk_cst rd' [] (c_n c) (c_limit c) (c_crc c) f)
+          | Some t => CErr (noEOF t) (mk_cst rd' [] (c_n c) (c_limit c) (c_crc c) f)
+          | None => COk tt (mk_cst rd' [] (c_n c) (c_limit c) (c_crc c) f)
           end
       end
   end.
 
 (* func (d *decoder) readFull(p []byte) error *)
-Fixpoint c_take (iters : nat) (k : nat) (acc : list N) (c : cst) : (list N * cst) + (ioerr + unit) :=
+Fixpoint c_take (iters : nat) (k : nat) (acc : list N) (c : cst) : cres (list N) :=
   let m := Nat.min k (length (c_buf c)) in
   let acc' := acc ++ firstn m (c_buf c) in
   let c1 := mk_cst (c_rd c) (skipn m (c_buf c)) (c_n c + m) (c_limit c) (c_crc c) (c_fuel c) in
-  if Nat.eqb (k - m) 0 then inl (acc', c1) else
+  if Nat.eqb (k - m) 0 then COk acc' c1 else
   match iters with
-  | O => inr (inr tt)
+  | O => CFuel
   | S it =>
       match fill c1 with
-      | inl c2 => c_take it (k - m) acc' c2
-      | inr e => inr e
+      | COk _ c2 => c_take it (k - m) acc' c2
+      | CErr e c2 => CErr e c2
+      | CFuel => CFuel
       end
   end.
 
 (* func (d *decoder) readByte() (byte, error) / skipByte *)
-Fixpoint c_byte (iters : nat) (c : cst) : (N * cst) + (ioerr + unit) :=
+Fixpoint c_byte (iters : nat) (c : cst) : cres N :=
   match c_buf c with
-  | b :: r => inl (b, mk_cst (c_rd c) r (c_n c + 1) (c_limit c) (c_crc c) (c_fuel c))
+  | b :: r => COk b (mk_cst (c_rd c) r (c_n c + 1) (c_limit c) (c_crc c) (c_fuel c))
   | [] =>
       match iters with
-      | O => inr (inr tt)
+      | O => CFuel
       | S it =>
           match fill c with
-          | inl c2 => c_byte it c2
-          | inr e => inr e
+          | COk _ c2 => c_byte it c2
+          | CErr e c2 => CErr e c2
+          | CFuel => CFuel
           end
       end
   end.
@@ -232,15 +242,15 @@ Fixpoint run_c {S E A} (p : prog S E A) (c : cst) (s : S) : result cst S E A :=
   | Panic w => RPanic w
   | ReadByte k =>
       match c_byte (Datatypes.S (c_fuel c)) c with
-      | inl (b, c') => run_c (k b) c' s
-      | inr (inl e) => RIOErr e c s
-      | inr (inr _) => ROutOfFuel
+      | COk b c' => run_c (k b) c' s
+      | CErr e c' => RIOErr e c' s
+      | CFuel => ROutOfFuel
       end
   | ReadFull n k =>
       match c_take (Datatypes.S (c_fuel c)) n [] c with
-      | inl (l, c') => run_c (k l) c' s
-      | inr (inl e) => RIOErr e c s
-      | inr (inr _) => ROutOfFuel
+      | COk l c' => run_c (k l) c' s
+      | CErr e c' => RIOErr e c' s
+      | CFuel => ROutOfFuel
       end
   | More k => run_c (k (Nat.ltb (c_n c) (c_limit c))) c s
   | Get k => run_c (k s) c s
